@@ -692,8 +692,13 @@ class Interp:
                 r = self.model_eq(a, b)
                 return r if isinstance(op, ast.Eq) else (not r if isinstance(r, bool) else z3.Not(r))
         if isinstance(a, Unit) and isinstance(b, Unit) and isinstance(op, (ast.Eq, ast.NotEq)):
-            r = a.dim == b.dim and (a.factor is b.factor or (not z3.is_expr(a.factor) and not z3.is_expr(b.factor) and a.factor == b.factor))
-            return r if isinstance(op, ast.Eq) else not r
+            # pint: units are equal when they have the same dimension and the same conversion factor
+            if a.dim != b.dim: r = False
+            elif a.factor is b.factor: r = True
+            else:
+                f_ = z3.simplify(rv(a.factor) == rv(b.factor))
+                r = True if z3.is_true(f_) else False if z3.is_false(f_) else f_
+            return r if isinstance(op, ast.Eq) else (not r if isinstance(r, bool) else z3.Not(r))
         if isinstance(a, Opaque) or isinstance(b, Opaque):
             return self.eng.decide(self.eng.fresh("opaque_cmp", B))
         if isinstance(op, (ast.Eq, ast.NotEq)) and isinstance(a, (str, PyNum, NoneV, bool)) and isinstance(b, (str, PyNum, NoneV, bool)) \
@@ -839,6 +844,9 @@ class Interp:
             if rd is not None: return rd(self, o.j, name)
             raise Unsupported(f"attribute {name} of a chain element")
         if isinstance(o, QList): return BoundMethod(o, name)
+        if isinstance(o, Unit):
+            if name == "dimensionless": return o.dim == DIMLESS        # pint: true for every unit without dimension, whatever its factor (GB/MB, percent)
+            if name == "dimensionality": return o.dim
         if isinstance(o, (Arr, PintAccessor, SDict, SList, KDict, list, str, Label, Unit, Opaque, tuple, ILoc)):
             return BoundMethod(o, name)
         if isinstance(o, ClassRef):
